@@ -168,7 +168,10 @@ def r_shapes(ctx, a):
         b = [0]
     m = ctx.model.call(0, _shape_ints(s1) + _shape_ints(s2), [])
     ctx.exact('np.broadcast_shapes', b, [int(v) for v in m])
-    ps = int(bool(filtering._preserves_shape(np.zeros(s1), np.zeros(s2))))
+    try:
+        ps = int(bool(filtering._preserves_shape(np.zeros(s1), np.zeros(s2))))
+    except ValueError:
+        ps = -1   # _preserves_shape must be total
     m = ctx.model.call(1, _shape_ints(s1) + _shape_ints(s2), [])
     ctx.exact('_preserves_shape', [ps], [int(v) for v in m])
     ctx.count('preserves:%d' % ps); ctx.count('broadcastable:%d' % b[0])
